@@ -15,14 +15,14 @@ QUICK_EXPRS = [
     "sphere@hardsphere+cylinder", "line*power_law+sphere", "core_multi_shell+sphere",
     "sphere+cylinder+ellipsoid", "guinier*sphere*line", "ellipsoid+line*sphere",
     "cylinder*sphere", "sphere+sphere", "lorentz+power_law+line+guinier",
-    "core_shell_sphere@hayter_msa*line", "onion+sphere",
+    "core_shell_sphere@hayter_msa*line", "onion+sphere", "porod*sphere+line",
 ]
 THOROUGH_EXTRA = [
     "cylinder@hardsphere+sphere@squarewell", "parallelepiped+ellipsoid", "vesicle*power_law",
     "core_shell_cylinder+core_shell_sphere+sphere", "fuzzy_sphere*line+guinier",
     "barbell+capped_cylinder", "hollow_cylinder@stickyhardsphere+line", "triaxial_ellipsoid*guinier",
     "sphere+line*power_law*guinier", "dab+two_lorentzian", "mass_fractal+surface_fractal*line",
-    "ellipsoid*cylinder+sphere*guinier", "stacked_disks+lamellar", "porod*sphere+line",
+    "ellipsoid*cylinder+sphere*guinier", "stacked_disks+lamellar", "sphere*line+porod*cylinder", "porod+sphere*porod",
 ]
 
 
